@@ -1,2 +1,4 @@
 pub mod analyzer;
 pub mod report;
+#[cfg(solstat_verif)]
+pub mod verif_fs;
